@@ -43,12 +43,13 @@ type Lowerer struct {
 	funcMustUse     map[string]bool              // Functions with @must_use attribute
 
 	// Variable usage tracking for unused variable warnings
-	localDecls        map[string]parser.Span // Where each local variable was declared
-	usedLocals        map[string]bool        // Which local variables have been used
-	localConsts       map[string]bool        // Which locals are const declarations (not let/var)
-	localIsVar        map[string]bool        // Which locals are var declarations (not let/const)
-	localIsPtr        map[string]bool        // Which locals are pointer let-bindings (let p = &v[i])
-	localAbstractASTs map[string]parser.Expr // Abstract local const init ASTs (deferred to use site)
+	localDecls        map[string]parser.Span       // Where each local variable was declared
+	usedLocals        map[string]bool              // Which local variables have been used
+	localConsts       map[string]bool              // Which locals are const declarations (not let/var)
+	localIsVar        map[string]bool              // Which locals are var declarations (not let/const)
+	localIsPtr        map[string]bool              // Which locals are pointer let-bindings (let p = &v[i])
+	localAbstractASTs map[string]parser.Expr       // Abstract local const init ASTs (deferred to use site)
+	localAbstractEnvs map[string][]abstractCapture // bindings of the names those ASTs mention, as of the declaration
 
 	// Scope stack for lexical scoping of local variables.
 	// Each entry saves the previous binding for names shadowed in a block scope.
@@ -190,6 +191,7 @@ func LowerWithWarnings(ast *parser.Module, source string) (*LowerResult, error) 
 		localIsVar:        make(map[string]bool, 16),
 		localIsPtr:        make(map[string]bool, 4),
 		localAbstractASTs: make(map[string]parser.Expr, 4),
+		localAbstractEnvs: make(map[string][]abstractCapture, 4),
 	}
 
 	// Register built-in types
@@ -3656,6 +3658,9 @@ func (l *Lowerer) lowerFunction(f *parser.FunctionDecl) error {
 	for k := range l.localAbstractASTs {
 		delete(l.localAbstractASTs, k)
 	}
+	for k := range l.localAbstractEnvs {
+		delete(l.localAbstractEnvs, k)
+	}
 	l.scopeStack = l.scopeStack[:0]
 	// Reset per-function GlobalVariable expression cache.
 	// Each function gets its own expression arena, so cached handles from
@@ -3817,6 +3822,94 @@ type scopeEntry struct {
 	hadVar   bool                // was there a previous l.localIsVar[name]?
 	hadPtr   bool                // was there a previous l.localIsPtr[name]?
 	prevAST  parser.Expr         // previous l.localAbstractASTs[name] (nil if none)
+	prevEnv  []abstractCapture   // previous l.localAbstractEnvs[name]
+}
+
+// abstractCapture is the binding one name had when an abstract local constant
+// whose initializer mentions it was declared. The initializer is lowered again
+// at every use of the constant and must see these bindings, not the ones in
+// scope at the use.
+type abstractCapture struct {
+	name     string
+	hadLocal bool
+	expr     ir.ExpressionHandle
+	isConst  bool
+	isVar    bool
+	isPtr    bool
+	ast      parser.Expr
+	env      []abstractCapture
+}
+
+// captureAbstractEnv records the current bindings of every identifier in init.
+func (l *Lowerer) captureAbstractEnv(init parser.Expr) []abstractCapture {
+	var env []abstractCapture
+	seen := map[string]bool{}
+	var walk func(e parser.Expr)
+	walk = func(e parser.Expr) {
+		switch e := e.(type) {
+		case *parser.Ident:
+			if seen[e.Name] {
+				return
+			}
+			seen[e.Name] = true
+			c := abstractCapture{name: e.Name, isConst: l.localConsts[e.Name], isVar: l.localIsVar[e.Name], isPtr: l.localIsPtr[e.Name],
+				ast: l.localAbstractASTs[e.Name], env: l.localAbstractEnvs[e.Name]}
+			c.expr, c.hadLocal = l.locals[e.Name]
+			env = append(env, c)
+		case *parser.BinaryExpr:
+			walk(e.Left)
+			walk(e.Right)
+		case *parser.UnaryExpr:
+			walk(e.Operand)
+		case *parser.CallExpr:
+			for _, a := range e.Args {
+				walk(a)
+			}
+		case *parser.ConstructExpr:
+			for _, a := range e.Args {
+				walk(a)
+			}
+		case *parser.IndexExpr:
+			walk(e.Expr)
+			walk(e.Index)
+		case *parser.MemberExpr:
+			walk(e.Expr)
+		case *parser.BitcastExpr:
+			walk(e.Expr)
+		}
+	}
+	walk(init)
+	return env
+}
+
+// lowerAbstractConstUse lowers the initializer of an abstract local constant at a
+// use site, under the bindings captured when the constant was declared.
+func (l *Lowerer) lowerAbstractConstUse(name string, ast parser.Expr) (ir.ExpressionHandle, error) {
+	env := l.localAbstractEnvs[name]
+	l.pushScope()
+	defer l.popScope()
+	for _, c := range env {
+		l.scopeSet(c.name)
+		if c.hadLocal {
+			l.locals[c.name] = c.expr
+		} else {
+			delete(l.locals, c.name)
+		}
+		if c.isConst {
+			l.localConsts[c.name] = true
+		}
+		if c.isVar {
+			l.localIsVar[c.name] = true
+		}
+		if c.isPtr {
+			l.localIsPtr[c.name] = true
+		}
+		if c.ast != nil {
+			l.localAbstractASTs[c.name] = c.ast
+			l.localAbstractEnvs[c.name] = c.env
+		}
+	}
+	return l.lowerExpression(ast, l.currentEmitTarget)
 }
 
 // scopeFrame represents one lexical scope level.
@@ -3860,8 +3953,10 @@ func (l *Lowerer) popScope() {
 		}
 		if e.prevAST != nil {
 			l.localAbstractASTs[e.name] = e.prevAST
+			l.localAbstractEnvs[e.name] = e.prevEnv
 		} else {
 			delete(l.localAbstractASTs, e.name)
+			delete(l.localAbstractEnvs, e.name)
 		}
 	}
 }
@@ -3894,6 +3989,7 @@ func (l *Lowerer) scopeSet(name string) {
 		hadVar:   hadVar,
 		hadPtr:   hadPtr,
 		prevAST:  l.localAbstractASTs[name],
+		prevEnv:  l.localAbstractEnvs[name],
 	})
 
 	// The new binding hides every attribute of the binding it shadows;
@@ -3902,6 +3998,7 @@ func (l *Lowerer) scopeSet(name string) {
 	delete(l.localIsVar, name)
 	delete(l.localIsPtr, name)
 	delete(l.localAbstractASTs, name)
+	delete(l.localAbstractEnvs, name)
 }
 
 // lowerBlock converts a block statement to IR statements.
@@ -5115,9 +5212,9 @@ func (l *Lowerer) lowerLocalConst(decl *parser.ConstDecl, target *[]ir.Statement
 	// where abstract const expressions are created during declaration but removed
 	// by compact. The concrete expressions are created fresh when referenced.
 	if decl.IsConst && !hasExplicitType && !l.initHasConcreteType(decl.Init) {
-		l.scopeSet(decl.Name)
-		l.localAbstractASTs[decl.Name] = decl.Init
-		l.localConsts[decl.Name] = true
+		// The initializer is resolved in the scope outside the declaration
+		// (const x = x + 1; reads the outer x), now and at every use site.
+		env := l.captureAbstractEnv(decl.Init)
 
 		// Still create the abstract expression to match Rust naga's pattern:
 		// Rust creates the expression during const declaration but it becomes dead
@@ -5128,6 +5225,11 @@ func (l *Lowerer) lowerLocalConst(decl *parser.ConstDecl, target *[]ir.Statement
 			return fmt.Errorf("const '%s' initializer: %w", decl.Name, err)
 		}
 		l.emitFinish(emitStart, target)
+
+		l.scopeSet(decl.Name)
+		l.localAbstractASTs[decl.Name] = decl.Init
+		l.localAbstractEnvs[decl.Name] = env
+		l.localConsts[decl.Name] = true
 		// Store the handle but DON'T concretize — it stays abstract.
 		// The handle is NOT used for var init; a fresh handle is created at use site.
 		l.locals[decl.Name] = initHandle
@@ -10041,7 +10143,7 @@ func (l *Lowerer) resolveIdentifier(name string) (ir.ExpressionHandle, error) {
 	// removes it. A fresh concretized expression is created at the reference site.
 	if ast, ok := l.localAbstractASTs[name]; ok {
 		l.usedLocals[name] = true
-		handle, err := l.lowerExpression(ast, l.currentEmitTarget)
+		handle, err := l.lowerAbstractConstUse(name, ast)
 		if err != nil {
 			return 0, err
 		}
